@@ -192,8 +192,13 @@ def run_one(tapes, tier, scenario=None):
                 bad("raised", type(e).__name__ + ":" + name, "%s(%r) raised %r with %d bytes queued (overflow %d, representation %s)" % (name, op[1:], e, len(model), ov, before))
                 break
             after = rep(buf)
-            if name != "close" and len(buf) != len(model):
-                bad("len", "%s->%s:%s" % (before, after, name), "len(buffer) is %d after %s, appended minus consumed is %d (overflow %d)" % (len(buf), name, len(model), ov))
+            try:
+                blen = len(buf)
+            except Exception as e:  # noqa
+                bad("len", "raises:" + type(e).__name__, "len(buffer) raised %r after %s with %d bytes queued (overflow %d)" % (e, name, len(model), ov))
+                break
+            if name != "close" and blen != len(model):
+                bad("len", "%s->%s:%s" % (before, after, name), "len(buffer) is %d after %s, appended minus consumed is %d (overflow %d)" % (blen, name, len(model), ov))
                 break
             if after != before:
                 probes["migrate:%s->%s" % (before, after)] = probes.get("migrate:%s->%s" % (before, after), 0) + 1
